@@ -79,30 +79,25 @@ def del_path(options, key):
 
 
 def restrict(options, keys):
-    """Dictionary holding exactly the values of `keys` (dict sections only;
-    a key running through a list keeps the whole list under its dict prefix)."""
-    out = {}
-    for key in sorted(keys):
-        parts = key.split(".")
-        # longest prefix that only walks through dicts
-        cur = options
-        upto = 0
-        for i, p in enumerate(parts):
-            if isinstance(cur, dict) and not isinstance(_part(p), int) and p in cur:
-                cur = cur[p]
-                upto = i + 1
-                if not isinstance(cur, dict):
-                    break
-            else:
-                break
-        prefix = ".".join(parts[:upto])
-        if not prefix:
-            continue
-        val = lookup(prefix, options)
-        if val is ABSENT:
-            continue
-        out = overlay(out, _nest(prefix, val))
-    return out
+    """Dictionary holding exactly the values of `keys`, in the original key order
+    (a key running through a list keeps the whole list)."""
+    keys = set(keys)
+
+    def filt(node, prefix):
+        out = {}
+        for k, v in node.items():
+            p = f"{prefix}{k}"
+            if p in keys:
+                out[k] = copy.deepcopy(v)
+            elif any(x.startswith(p + ".") for x in keys):
+                if isinstance(v, dict):
+                    sub = filt(v, p + ".")
+                    out[k] = sub
+                elif isinstance(v, list):
+                    out[k] = copy.deepcopy(v)
+        return out
+
+    return filt(options, "")
 
 
 def _nest(key, value):
@@ -244,7 +239,7 @@ SCALARS = [0, 1, 2, -1, True, False, None, "", "a", "b"]
 HASHABLE = [0, 1, 2, True, False, None, "", "a", "b", "x", "y"]
 CONTAINERS = [[], [1], [0, "a"], {}, {"X": 1}]
 VALUES = SCALARS + CONTAINERS
-TEMPLATED = ["{A}", "{S.X}-{B}", "\\{lit\\}", "{B}", "{C}", "p{T.X}q", "{S.Y}", "{L.0}"]
+TEMPLATED = ["{A}", "{S.X}-{B}", "{B}", "{C}", "p{T.X}q", "{S.Y}", "{L.0}", "{A}{B}"]
 DISPATCH_VALUES = ["x", "y", "z", 0, 1, True, None, "a"]
 
 
